@@ -302,6 +302,90 @@ func gen(r *vh.Rand, tier string, n int) []in {
 		x.S = B(tag)
 		ins = append(ins, x)
 	}
+	// 6. near-miss pairs: the tag names (inst, comp); snap-confine is asked about a pair in which the instance (name or
+	// key) or the component is a proper prefix, an extension by one or two bytes, or differs in one byte — in both
+	// directions, on tags produced by the real SecurityTag() functions and on assembled ones
+	type base struct {
+		name, key, comp, hook string
+	}
+	bases := []base{{"foo", "", "comp", "install"}, {"foo", "k1", "comp", "install"}, {"foo-bar", "", "comp-extra", "configure"},
+		{"ab", "x", "cd", "remove"}, {"foo", "", "", "install"}, {"foo", "bar", "", "pre-refresh"}, {goodName(r), goodKey(r), goodName(r), "install"}}
+	variants := func(s string) []string {
+		if s == "" {
+			return []string{"a", "ab"}
+		}
+		v := []string{s + "a", s + "0", s + "-x", s[:len(s)-1] + "q", "q" + s[1:]}
+		for k := 1; k <= 2 && k < len(s); k++ {
+			v = append(v, s[:len(s)-k])
+		}
+		return v
+	}
+	realTag := func(name, key, comp, hook string, isHook bool) (string, string) {
+		info := &snap.Info{SuggestedName: name, InstanceKey: key}
+		if !isHook {
+			return (&snap.AppInfo{Snap: info, Name: hook}).SecurityTag(), info.InstanceName()
+		}
+		h := &snap.HookInfo{Snap: info, Name: hook}
+		if comp != "" {
+			h.Component = &snap.Component{Name: comp}
+		}
+		return h.SecurityTag(), info.InstanceName()
+	}
+	addPair := func(tag, askInst, askComp string, hasComp bool) {
+		x := in{Kind: "tag", S: B(tag), Inst: B(askInst), HasComp: hasComp}
+		if hasComp {
+			x.Comp = B(askComp)
+		}
+		ins = append(ins, x)
+	}
+	for _, b := range bases {
+		for _, isHook := range []bool{true, false} {
+			comp := b.comp
+			if !isHook {
+				comp = "" // no app tags for components
+			}
+			tag, inst := realTag(b.name, b.key, comp, b.hook, isHook)
+			asm := "snap." + inst
+			if comp != "" {
+				asm += "+" + comp
+			}
+			if isHook {
+				asm += ".hook." + b.hook
+			} else {
+				asm += "." + b.hook
+			}
+			for _, tg := range []string{tag, asm} {
+				addPair(tg, inst, comp, comp != "") // the matching pair
+				for _, v := range variants(inst) {
+					addPair(tg, v, comp, comp != "")
+				}
+				if b.key != "" {
+					for _, v := range variants(b.name) {
+						addPair(tg, v+"_"+b.key, comp, comp != "")
+					}
+					for _, v := range variants(b.key) {
+						addPair(tg, b.name+"_"+v, comp, comp != "")
+					}
+				}
+				if comp != "" {
+					for _, v := range variants(comp) {
+						addPair(tg, inst, v, true)
+					}
+				}
+			}
+			// the other direction: the tag names the variant, the question is about the base pair
+			for _, v := range variants(b.name) {
+				tv, _ := realTag(v, b.key, comp, b.hook, isHook)
+				addPair(tv, inst, comp, comp != "")
+			}
+			if comp != "" {
+				for _, v := range variants(comp) {
+					tv, _ := realTag(b.name, b.key, v, b.hook, isHook)
+					addPair(tv, inst, comp, true)
+				}
+			}
+		}
+	}
 	for i := range ins {
 		ins[i].Text = fmt.Sprintf("%q %q %q %q", ins[i].S, ins[i].Inst, ins[i].Comp, ins[i].Name)
 	}
